@@ -52,10 +52,10 @@ func runMatrixC06(t *testing.T, protos []string) {
 	r.SetExhaustive(sample <= 1)
 }
 
-func TestC06MatrixEdDSA(t *testing.T)           { runMatrixC06(t, edProtos) }
-func TestC06MatrixECDSASigning(t *testing.T)    { runMatrixC06(t, []string{"ecdsa-signing"}) }
-func TestC06MatrixECDSAKeygen(t *testing.T)     { runMatrixC06(t, []string{"ecdsa-keygen"}) }
-func TestC06MatrixECDSAResharing(t *testing.T)  { runMatrixC06(t, []string{"ecdsa-resharing"}) }
+func TestC06MatrixEdDSA(t *testing.T)          { runMatrixC06(t, edProtos) }
+func TestC06MatrixECDSASigning(t *testing.T)   { runMatrixC06(t, []string{"ecdsa-signing"}) }
+func TestC06MatrixECDSAKeygen(t *testing.T)    { runMatrixC06(t, []string{"ecdsa-keygen"}) }
+func TestC06MatrixECDSAResharing(t *testing.T) { runMatrixC06(t, []string{"ecdsa-resharing"}) }
 
 // ------------------------------------------------------------------------------------------------
 // routing faults: wrong sender index, wrong flag, wrong recipient / role, re-attribution, replays of
